@@ -159,7 +159,7 @@ static int run_one(const BlocksShape &sh, SimConfig cfg, bool have_cfg, Prng *r)
     // several workers have taken a task before any of them starts building
     if (sh.cold && r->chance(1, 2)) cfg.strategy = r->chance(1, 2) ? ST_PFRR : ST_RR;
     if (sh.cold) { static const int pm[] = {0, 1, 1, 2}; cfg.pcguard_permille = pm[r->below(4)]; }
-    else if (cfg.pcguard_permille > 20) cfg.pcguard_permille = 20; // builds have 1e5..1e6 guard hits
+    else if (cfg.pcguard_permille > 20 && ss.total() > 1500) cfg.pcguard_permille = 20; // big builds have 1e5..1e6 guard hits
   }
   cfg.keep_log = true;
   cfg.step_cap = 400000; cfg.fair_after = 200000;
